@@ -43,6 +43,7 @@ import (
 
 	"github.com/libp2p/go-libp2p/core/event"
 	"github.com/libp2p/go-libp2p/p2p/host/eventbus"
+	"github.com/prometheus/client_golang/prometheus"
 )
 
 const nTypes = 3
@@ -96,6 +97,11 @@ type subSpec struct {
 	Types []int  `json:"types,omitempty"` // typed subscriptions: distinct type indices
 	Buf   int    `json:"buf"`             // 0/1/2/16 via eventbus.BufSize; -1 = option omitted (default 16)
 	Eager bool   `json:"eager"`           // reads continuously from creation; otherwise reads only when granted / resumed
+	// Name: the subscription is created with eventbus.Name(Name) ("" = option omitted: the bus
+	// derives a name from the calling line, the same one for every subscription of a case).
+	// A name is a label for metrics and says nothing about delivery: every rule holds whatever
+	// the names are (distinct, shared by two subscriptions, never used before in the process).
+	Name string `json:"name,omitempty"`
 }
 
 func (s subSpec) capacity() int {
@@ -220,6 +226,12 @@ type step struct {
 // locks from every goroutine, must never block and must not be a synchronisation point of its
 // own). The counts feed coverage labels only; the property says nothing about metrics.
 type countingTracer struct {
+	// real: the bus was given the library's own tracer (eventbus.NewMetricsTracer on a
+	// registry of its own, what libp2p.New gives its bus) INSTEAD of this one - not through
+	// this one, whose atomic counters would order the goroutines for the race detector; the
+	// counts then stay zero.
+	real bool
+
 	emitted, added, removed, queueLen, queueFull, queued atomic.Int64
 }
 
@@ -237,10 +249,19 @@ type scenario struct {
 	// tracer>)) instead of the plain eventbus.NewBus(). The property speaks of "the event bus"
 	// without restricting how it was constructed: every rule holds for both.
 	Tracer bool `json:"metrics_tracer,omitempty"`
+	// RealTracer (with Tracer): the tracer is the library's own Prometheus tracer,
+	// eventbus.NewMetricsTracer(eventbus.WithRegisterer(<fresh registry>)), the one libp2p.New
+	// installs, instead of the counting one. Same rules again; what it records is not judged.
+	RealTracer bool `json:"real_metrics_tracer,omitempty"`
 	// Stateful, per type: some emitter of the type is created with eventbus.Stateful (the type
 	// may get a retained event at some point of the history). Which emitters ask for it is
 	// EmStateful (one entry per emitter; omitted = every emitter of a type follows Stateful):
 	// emitters of one type may disagree.
+	// Tight: the actions of a step, once all of them are running, are released by a second
+	// barrier on which they spin WITHOUT yielding (bounded), so that each of them occupies a
+	// processor of its own at the instant of the release: calls "at the same time" in the
+	// literal sense rather than within the same few microseconds.
+	Tight       bool         `json:"tight_start,omitempty"`
 	Stateful    [nTypes]bool `json:"stateful"`
 	EmStateful  []bool       `json:"em_stateful,omitempty"`
 	Workers     int          `json:"workers"`  // emit goroutines (at most one unfinished burst each)
@@ -919,6 +940,9 @@ func (h *harness) doSubscribe(s *subState) {
 	if s.spec.Buf >= 0 {
 		opts = append(opts, eventbus.BufSize(s.spec.Buf))
 	}
+	if s.spec.Name != "" {
+		opts = append(opts, eventbus.Name(s.spec.Name))
+	}
 	begin := h.now()
 	sub, err := h.bus.Subscribe(arg, opts...)
 	ret := h.now()
@@ -1028,7 +1052,7 @@ func (h *harness) runBurst(b *burst) {
 func (h *harness) launch(acc []action) {
 	_, stall := h.analyse(acc) // before the model is updated
 	var start atomic.Bool
-	var arrived atomic.Int32
+	var arrived, lined atomic.Int32
 	var descs []string
 	for _, a := range acc {
 		a := a
@@ -1142,6 +1166,11 @@ func (h *harness) launch(acc []action) {
 			for !start.Load() {
 				runtime.Gosched()
 			}
+			if h.sc.Tight {
+				lined.Add(1)
+				for k := 0; k < 50000 && int(lined.Load()) < len(acc); k++ {
+				}
+			}
 			for i := 0; i < a.Y; i++ {
 				runtime.Gosched()
 			}
@@ -1242,8 +1271,12 @@ func newHarness(sc *scenario) *harness {
 func runScenario(sc *scenario) *result {
 	h := newHarness(sc)
 	if sc.Tracer {
-		h.tracer = &countingTracer{}
-		h.bus = eventbus.NewBus(eventbus.WithMetricsTracer(h.tracer))
+		h.tracer = &countingTracer{real: sc.RealTracer}
+		if sc.RealTracer {
+			h.bus = eventbus.NewBus(eventbus.WithMetricsTracer(eventbus.NewMetricsTracer(eventbus.WithRegisterer(prometheus.NewRegistry()))))
+		} else {
+			h.bus = eventbus.NewBus(eventbus.WithMetricsTracer(h.tracer))
+		}
 	} else {
 		h.bus = eventbus.NewBus()
 	}
